@@ -3,22 +3,23 @@ import collections, concurrent.futures, glob, json, os, tempfile, threading
 from vlib import core, tracecheck
 
 LEVEL = "model_checking"
-TECHNIQUE = ("TLA+ model of InsertData/Flush/Close with the mutex held exactly where datarecorder.go holds it, model-checked with TLC "
-             "(all interleavings of 2 inserters + flusher + Close, batch sizes 1..3); every distinct final state's schedule replayed on the "
-             "real recorder through gates (hook H2), plus seeded random gate schedules and free-running goroutines; SQLite file read back "
-             "with the real reader; logs validated by TLC against the model and the abstract statement")
-LEVEL_TEXT = ("Recorder.tla has one action per stretch of code between two gates of hook H2 (InsertData's critical section; Flush's unlocked "
-              "entryCount read, BEGIN, per-table snapshot, per-row locked insert with location interning, unlocked clear, location flush, "
-              "unlocked counter reset, COMMIT). TLC explores every interleaving within the bounds: with the repaired lock scope it proves "
-              "AllPersistedOnce, NoCrash, termination and the refinement Recorder => RecorderAbs; with the pinned lock scope it proves the "
-              "weaker guarantees (nothing lost unless a call overlaps another goroutine's flush, never stored twice, interning 1-1) and emits "
-              "one schedule per distinct final state. Each schedule is replayed on the real sqliteWriter with goroutines parked at the gates "
-              "and released one at a time; the mutex-ordered log plus the rows read back from the SQLite file are validated by TLC "
-              "(RecorderTrace.tla): step by step against the model and, at the end, against the statement evaluated on the real rows.")
-LEVEL_NOTE = ("Interleavings are exhaustive only in the model (2 inserters x <=2 entries, <=2 explicit flushes, <=2 tables); larger programs are "
+TECHNIQUE = ("TLA+ model of InsertData/Flush/Close with the mutex held exactly where datarecorder.go holds it (goroutines waiting for the mutex "
+             "included), model-checked with TLC (all interleavings of 2-3 inserters + flusher + Close, batch sizes 1..3); one schedule per distinct "
+             "(final state, set of wait situations) replayed on the real recorder through gates (hook H2), plus seeded random gate schedules and "
+             "free-running goroutines; SQLite file read back with the real reader; logs validated by TLC against the model and the abstract statement")
+LEVEL_TEXT = ("Recorder.tla has one action per stretch of code between two gates of hook H2 (InsertData's critical section; flushLocked's entryCount "
+              "read, BEGIN, per-table snapshot, per-row insert with location interning, clear, location flush, counter reset, COMMIT) and a silent "
+              "action for a waiting goroutine taking the freed mutex. TLC explores every interleaving within the bounds and proves AllPersistedOnce, "
+              "NoCrash, termination and the refinement Recorder => RecorderAbs; the lock scope the code had before the repair (Flush without the "
+              "mutex) is kept as a negative control that TLC must refute. One schedule per distinct (final state, set of points of a flush at which "
+              "another call was let in to wait) is replayed on the real sqliteWriter with goroutines parked at the gates and released one at a time "
+              "(a goroutine blocked on the recorder's mutex is recognised from its wait reason); the mutex-ordered log plus the rows read back from "
+              "the SQLite file are validated by TLC (RecorderTrace.tla): step by step against the model and, at the end, against the statement "
+              "evaluated on the real rows.")
+LEVEL_NOTE = ("Interleavings are exhaustive only in the model (2 inserters x <=2 entries or 3 x 1, <=2 explicit flushes, <=2 tables); larger programs are "
               "sampled (random gate schedules, 2-8 free-running goroutines, also under -race in thorough). Field values are sampled from seeded "
               "generators with the extremes of every allowed kind, not enumerated. NaN is left out (SQLite stores NaN as NULL). Known findings: "
-              "W9 (unlocked Flush loses entries / panics when calls overlap), unsigned values >= 2^63 and complex kinds cannot be stored.")
+              "unsigned values >= 2^63 and complex kinds cannot be stored (W9, the unlocked Flush, is repaired in the repository).")
 
 PANICS = [("cannot start a transaction within a transaction", "panic_nested_transaction"),
           ("cannot commit - no transaction is active", "panic_commit_without_transaction"),
@@ -116,14 +117,14 @@ def interleaved(lines):
     return any(m["e"] == "step" and (w[k] - {m["p"]}) for k, m in enumerate(lines))
 
 
-PREDICT = {"ok": "ok", "dropped": "lost_dropped", "unflushed_at_close": "lost_unflushed_at_close", "panic": "panic_nested_transaction"}
+PREDICT = {"ok": "ok", "dropped": "lost", "unflushed_at_close": "lost", "panic": "panic_nested_transaction"}
 
 
 def pick(ck, cases, quota):
-    """Seeded sample of model behaviours, stratified by (outcome, batch size) so that rare classes are all kept."""
+    """Seeded sample of model behaviours, stratified by (outcome, batch size, number of wait situations) so that rare classes are all kept."""
     groups = collections.defaultdict(list)
     for c in cases:
-        groups[(c["outcome"], c["batch"])].append(c)
+        groups[(c["outcome"], c["batch"], c.get("waits", 0))].append(c)
     out = []
     todo = sorted(groups.values(), key=len)
     for i, g in enumerate(todo):
@@ -168,7 +169,10 @@ def gated(ck, label, cases, tables, random_n, shards, retry=0):
     if not v.accepted:
         raise core.Broken("%s: TLC could not read the gated log to its end (matched %s, next %s, invariant %s) — on a log of the real code "
                           "that conforms to the model every model invariant must hold" % (label, v.matched, v.next, v.invariant))
-    tl = {c["run"]: c for c in v.tlc.tagged["CASE"]}
+    tl = {}
+    for c in v.tlc.tagged["CASE"]:      # one line per branch (which waiter got the mutex): the run conforms if one branch does
+        if c["run"] not in tl or (c["conf"] and not tl[c["run"]]["conf"]):
+            tl[c["run"]] = c
     if set(tl) != set(results):
         raise core.Broken("%s: TLC judged %d runs, the harness made %d" % (label, len(tl), len(results)))
     stats = collections.Counter()
@@ -196,7 +200,7 @@ def gated(ck, label, cases, tables, random_n, shards, retry=0):
             elif go_ok:
                 symptom = "ok"
             elif r["verdict"]["symptom"] == "missing":
-                symptom = "lost" if not c["conf"] else ("lost_unflushed_at_close" if set(c["missing"]) <= set(c["unflushed"]) else "lost_dropped")
+                symptom = "lost"
             else:
                 symptom = r["verdict"]["symptom"]
             stats["outcome:" + symptom] += 1
@@ -315,16 +319,18 @@ def free(ck, label, runs, race=False, single_every=0, budget=0, max_per=60, tlc_
 
 def run(ck):
     q = ck.tier == "quick"
-    ck.cov["rule"] = ("TLC: all behaviours of Recorder.tla within the cfg bounds (pinned and repaired lock scope). Real code: a case is one run of the real "
-                      "recorder ending with Close and a read-back of the SQLite file through the real reader — (a) one gated replay per distinct final state of "
-                      "the model + seeded random gate schedules (non-trivial: some step of one goroutine lies between another goroutine's BEGIN and COMMIT), "
+    ck.cov["rule"] = ("TLC: all behaviours of Recorder.tla within the cfg bounds. Real code: a case is one run of the real "
+                      "recorder ending with Close and a read-back of the SQLite file through the real reader — (a) gated replays of model schedules (one per distinct "
+                      "final state x set of wait situations, seeded stratified sample when there are more than the quota) + seeded random gate schedules "
+                      "(non-trivial: some goroutine is let through a gate between another goroutine's BEGIN and COMMIT), "
                       "(b) sequential round trips per table shape x batch size x flush pattern with seeded extreme values, (c) free-running goroutines "
                       "(non-trivial: >=2 inserters or >=2 flushes). Verdict per run: multiset equality of inserted and stored entries on every non-ignored "
                       "field, location ids <-> strings one-to-one.")
     ck.assumptions += [
         "Close is called after every InsertData/Flush call has returned (the statement speaks of entries inserted before the recorder is closed)",
         "a panic inside the recorder counts as not persisting (a real program dies); the harness recovers it only to keep going",
-        "gated runs: goroutines reach the single pooled SQLite connection one at a time, so a second BEGIN fails — modelled as a panic; free runs use the pool as is (busy timeout shortened to 150 ms)",
+        "gated runs: a goroutine let through a gate runs until it is parked again, finished, or waiting for the recorder's mutex (seen in its scheduler wait reason); a waiter takes the freed mutex before anybody else is let through",
+        "free runs use the connection pool as is, busy timeout shortened to 150 ms (only consulted if two goroutines write at once, i.e. after a regression)",
         "NaN is not generated: SQLite stores NaN as NULL, no SQLite-backed recorder can return it; +-Inf, -0, subnormals are generated",
         "table and field names are not SQL keywords; entries carry unique IDs so that 'exactly once' is decidable per entry",
         "the visit of the 'location' map entry in Flush's table loop (a length read) is not a model step; the controller lets it pass unlogged",
@@ -338,26 +344,28 @@ def run(ck):
             pool.submit(free, ck, "free", 30 if q else 460, budget=25 if q else 150, single_every=5 if q else 8)]
     if not q:
         jobs.append(pool.submit(free, ck, "free-race", 150, race=True, budget=150, single_every=12))
-    # 1. the model with the repaired lock scope satisfies the statement; with the pinned scope the weaker guarantees
-    frf = pool.submit(Locked(ck).run_tlc, ["recorder"], "Recorder", "Recorder_fix_q.cfg" if q else "Recorder_fix_t.cfg", workers=2 if q else 4, timeout=3000)
+    # 1. the model: the lock scope the code has satisfies the statement; the scope it had before the repair is the negative control
     fh = pool.submit(Locked(ck).run_tlc, ["recorder"], "Recorder", "Recorder_hyp.cfg", workers=1, timeout=3000)
-    cfgs = [("Recorder_q.cfg", 8)] if q else [("Recorder_t.cfg", 8), ("Recorder_t2.cfg", 4), ("Recorder_t3.cfg", 2), ("Recorder_t4.cfg", 3)]
+    cfgs = ([("Recorder_q.cfg", 3), ("Recorder_q2.cfg", 2), ("Recorder_q3.cfg", 6)] if q else
+            [("Recorder_t.cfg", 6), ("Recorder_t2.cfg", 6), ("Recorder_t3.cfg", 4), ("Recorder_t4.cfg", 4)])
     fms = [pool.submit(Locked(ck).run_tlc, ["recorder"], "Recorder", cfg, workers=w, timeout=3000) for cfg, w in cfgs]
     cases = []
     for (cfg, _), fm in zip(cfgs, fms):
         r = fm.result()
         if not r.ok:
-            raise core.Broken("Recorder.tla (pinned lock scope, %s) violates %s %s — the model has drifted" % (cfg, r.violated, r.error))
+            raise core.Broken("Recorder.tla (%s) violates %s %s — the model of the recorder does not satisfy the statement: it has drifted from "
+                              "the code, or the code's lock scope no longer guarantees it; inspect" % (cfg, r.violated, r.error))
         cases.append(r.tagged["CASE"])
-    rf, h = frf.result(), fh.result()
-    if not rf.ok:
-        raise core.Broken("Recorder.tla with LockScope=fix violates %s %s — the model of the repair is wrong" % (rf.violated, rf.error))
+    h = fh.result()
+    if h.ok or h.violated != "AllPersistedOnce":
+        raise core.Broken("negative control failed: TLC did not refute AllPersistedOnce for the lock scope the recorder had before the repair "
+                          "(Flush without the mutex): ok=%s violated=%s %s" % (h.ok, h.violated, h.error))
     pred = collections.Counter(c["outcome"] for cs in cases for c in cs)
     ck.cov["model_final_states"] = dict(pred)
-    ck.note("model, pinned lock scope: %d distinct final states %s; AllPersistedOnce %s" % (
-        sum(pred.values()), dict(pred), "holds" if h.ok else "refuted by TLC (hypothesis W9, to be confirmed on the real recorder)"))
+    ck.note("model (mutex held across the flush): %d distinct (final state, wait situations) %s; negative control (Flush without the mutex): "
+            "AllPersistedOnce refuted by TLC" % (sum(pred.values()), dict(pred)))
     # 2. B3: distinct final states' schedules on the real recorder, then seeded random gate schedules
-    nb, ng = (150, 100) if q else (1200, 500)
+    nb, ng = (50, 130) if q else (200, 1500)
     for k, cs in enumerate(cases):
         tabs = sorted({s["t"] for c in cs for s in c["sched"] if s["l"] == "ins"})
         chosen = pick(ck, [c for c in cs if c["outcome"] != "ok"], nb) + pick(ck, [c for c in cs if c["outcome"] == "ok"], ng)
@@ -365,7 +373,7 @@ def run(ck):
         jobs.append(pool.submit(gated, ck, "tlc-schedules" + (str(k + 1) if k else ""),
                                 [dict(name="tlc-%d" % i, batch=c["batch"], sched=c["sched"], outcome=c["outcome"]) for i, c in enumerate(chosen)],
                                 tabs, 0, 4 if q else 6, retry=0 if len(tabs) == 1 else 12))
-    jobs.append(pool.submit(gated, ck, "random-schedules", [], ["t1", "t2"], 60 if q else 1500, 2 if q else 6))
+    jobs.append(pool.submit(gated, ck, "random-schedules", [], ["t1", "t2"], 100 if q else 1500, 2 if q else 6))
     errs = []
     for j in jobs:
         try:
